@@ -29,7 +29,32 @@ fn write_trace(path: &str, events: &[Value]) {
     }
 }
 
+/// `--crashed h:k:sig,...`: histories during which an earlier run of this very command was killed by a signal
+/// raised from inside the code under test (stack overflow, segmentation fault, abort). They are not run again:
+/// the trace gets a `Crash` event in their place.
+fn crashed_list(args: &[String]) -> Vec<(usize, i64, i64)> {
+    arg(args, "--crashed")
+        .map(|s| {
+            s.split(',')
+                .filter(|x| !x.is_empty())
+                .map(|x| {
+                    let p: Vec<i64> = x.split(':').map(|y| y.parse().unwrap()).collect();
+                    (p[0] as usize, p[1], p[2])
+                })
+                .collect()
+        })
+        .unwrap_or_default()
+}
+
+fn reset_event(h: &hist::History, hno: i64) -> Value {
+    let mut sorted = h.indexes.clone();
+    sorted.sort_by_key(|d| d.idx);
+    json!({"ev":"Reset","h":hno,"idxs": sorted.iter().map(|d| json!({"real": d.idx as i64, "metric": d.metric.short(), "dim": d.dim as i64})).collect::<Vec<_>>(),
+        "ids": [], "nids": 0, "label": h.label, "mapfull": false})
+}
+
 fn run_many(hists: &[hist::History], threads: usize, cfg: &exec::RunCfg, out_prefix: &str, first_no: usize) {
+    let crashed = crashed_list(&std::env::args().collect::<Vec<_>>());
     // The histories run on a worker thread (inside a rayon pool of the requested size); this thread is the
     // wall-clock watchdog: a build that neither returns nor polls the cancellation callback cannot be
     // interrupted, so after VERIF_HANG_SECS without progress the trace collected so far is written with a
@@ -55,6 +80,20 @@ fn run_many(hists: &[hist::History], threads: usize, cfg: &exec::RunCfg, out_pre
         sc.spawn(move || {
             let pool = rayon::ThreadPoolBuilder::new().num_threads(threads).build().unwrap();
             for (i, h) in hists.iter().enumerate() {
+                if let Some((_, k, sig)) = crashed.iter().find(|c| c.0 == first_no + i) {
+                    let hno = (first_no + i) as i64;
+                    let op = h.ops.get(*k as usize).map(|o| o.name()).unwrap_or("?");
+                    let mut e = events2.lock().unwrap();
+                    e.push(reset_event(h, hno));
+                    e.push(json!({"ev":"Crash","h":hno,"k":*k,"op":op,"sig":*sig}));
+                    drop(e);
+                    let mut a = agg2.lock().unwrap();
+                    a.0.events += 1;
+                    a.2 = i + 1;
+                    drop(a);
+                    tx.send(false).ok();
+                    continue;
+                }
                 let st = pool.install(|| {
                     let mut ev = Vec::new();
                     let st = exec::run_history(h, first_no + i, cfg, &mut ev);
@@ -90,10 +129,7 @@ fn run_many(hists: &[hist::History], threads: usize, cfg: &exec::RunCfg, out_pre
                     // the events of the hung history are still private to the worker: start it over in the trace
                     let hno = now.0;
                     let h = &hists[(hno as usize) - first_no];
-                    let mut sorted = h.indexes.clone();
-                    sorted.sort_by_key(|d| d.idx);
-                    ev.push(json!({"ev":"Reset","h":hno,"idxs": sorted.iter().map(|d| json!({"real": d.idx as i64, "metric": d.metric.short(), "dim": d.dim as i64})).collect::<Vec<_>>(),
-                        "ids": [], "nids": 0, "label": h.label, "mapfull": false}));
+                    ev.push(reset_event(h, hno));
                     ev.push(json!({"ev":"Hang","h":hno,"k":now.1,"secs":hang_secs as i64}));
                     let a = agg.lock().unwrap();
                     finish(&ev, &a, true);
@@ -111,6 +147,10 @@ fn main() {
     let args: Vec<String> = std::env::args().collect();
     exec::quiet_panics();
     let cmd = args.get(1).map(|s| s.as_str()).unwrap_or("");
+    // machinery self-test only: die like the code under test could make this process die
+    if std::env::var("VERIF_TEST_ABORT_DRIVER").map(|d| d == cmd).unwrap_or(false) {
+        std::process::abort();
+    }
     match cmd {
         "gen" => {
             let profile = arg(&args, "--profile").unwrap_or("forest".into());
